@@ -283,6 +283,19 @@ func (c02) Gen(rs uint64, tier string, race bool) interface{} {
 		}
 	} else {
 		c.Alns = []AlnSpec{genIOAln(r, fs, 10, 200)}
+		if r.Chance(0.04) {
+			// the smallest files there are: one or two rows of 1-3 residues under names of 1-2 characters (a whole FASTA
+			// file of 5 bytes), shorter than any keyword a format detector may want to look at
+			t := genIOAln(r, fs, 2, 3)
+			for i := range t.Names {
+				t.Names[i] = string("abXZ19"[r.Intn(6)]) + []string{"", "", "c", "7"}[r.Intn(4)]
+				if i > 0 && t.Names[i] == t.Names[0] {
+					t.Names[i] = "q"
+				}
+				t.Seqs[i] = t.Seqs[i][:1+(len(t.Seqs[0])-1)%3]
+			}
+			c.Alns[0] = t
+		}
 		if r.Chance(0.01) {
 			// many rows: beyond the first capacity of the tables the parsers keep per row
 			for tall := genIOAln(r, fs, 140, 130); ; tall = genIOAln(r, fs, 140, 130) {
